@@ -250,7 +250,7 @@ func runEnc(cf cfg) ev {
 	e["err"], e["panic"], e["msg"] = err != nil, pan, m
 	e["lvlexp"] = cf.Lvl
 	if err != nil || pan {
-		e["metaeq"], e["lvlout"], e["errbits"], e["stdmilli"], e["differs"], e["wrongbits"] = false, -1, 0, 0, false, 0
+		e["metaeq"], e["lvlout"], e["errbits"], e["stdmilli"], e["differs"], e["wrongbits"], e["maskbits"] = false, -1, 0, 0, false, 0, 0
 		return e
 	}
 	full := func(x *rlwe.Ciphertext, seed []byte) *rlwe.Ciphertext {
@@ -290,6 +290,31 @@ func runEnc(cf cfg) ev {
 	rq.Sub(w, msg, diff)
 	wb, _ := stats(rq, diff)
 	e["wrongbits"] = wb
+	// masking of the second component, measurable from public data: without an auxiliary modulus c1 = u*pk1 + e1, so
+	// c1 / pk1 = u + e1 / pk1 looks uniform; it is the small polynomial u itself exactly when c1 carries no error
+	e["maskbits"] = e["logq"]
+	if cf.Key == "pk" && p.PCount() == 0 && cf.Deg == 1 {
+		c1 := plain(rq, f1.Value[1], f1.IsNTT, f1.IsMontgomery)
+		a := plain(rq, c.pk.Value[1].Q, true, true)
+		rq.NTT(c1, c1)
+		rq.NTT(a, a)
+		inv := true
+		for i, sr := range rq.SubRings[:cf.Lvl+1] {
+			for j := range a.Coeffs[i] {
+				if a.Coeffs[i][j] == 0 {
+					inv = false
+					continue
+				}
+				x := ring.ModExp(a.Coeffs[i][j], sr.Modulus-2, sr.Modulus)
+				c1.Coeffs[i][j] = new(big.Int).Mod(new(big.Int).Mul(new(big.Int).SetUint64(c1.Coeffs[i][j]), new(big.Int).SetUint64(x)), new(big.Int).SetUint64(sr.Modulus)).Uint64()
+			}
+		}
+		if inv {
+			rq.INTT(c1, c1)
+			mb, _ := stats(rq, c1)
+			e["maskbits"] = mb
+		}
+	}
 	return e
 }
 
